@@ -47,7 +47,7 @@ REQUIRED_STATS = ['histories', 'runs_in_histories', 'foreign_thread_reads', 'thr
 
 
 def n_cases(tier):
-    return 420 if tier == 'quick' else 1500
+    return 420 if tier == 'quick' else 2400
 
 
 def make_case(seed, index, tier):
